@@ -24,6 +24,8 @@ WideTags == {<<>>, <<1>>, <<18>>, <<24>>, Pow(1), FF(8)}
 KeyInts == {UInt(<<>>), UInt(<<24>>), UInt(Pow(1)), UInt(Pow(2)), NInt(<<>>), NInt(<<24>>)}
 KeyStrs == {TStr(<<>>), TStr(<<98>>), TStr(<<97, 97>>)}
 NoTags == {}
+NoSimples == {}
+AllSimples == {False, True, Null}
 
 \* two-byte length heads: strings of 255 and 256 bytes (TLC is slow on long sequences, so few items)
 LongInts == {UInt(<<>>)}
